@@ -361,3 +361,100 @@ Section StreamFetchProofs.
         * contradiction.
   Qed.
 End StreamFetchProofs.
+
+(* ---------------------------------------------------------------- closed form when every write succeeds
+   (the other file-system calls — create_dir_all, NamedTempFile::new_in, remove_file, persist — stay arbitrary):
+   the outcome of the download is a function of the body alone, and it is what C16/Model.v computes from the
+   events of that response with the whole-body verdict as its parser. *)
+Section ClosedForm.
+  Variable L : Type.
+  Variable llen : L -> Z.
+  Variable PS : Type.
+  Variable init_ps : PS.
+  Variable recog : PS -> L -> PS + Z.
+  Variable bump : PS -> PS.
+  Variable lineno : PS -> Z.
+  Variable T : Type.
+  Variable finish : PS -> option T.
+  Variable split : bytes -> list L * Z.
+  Variable p : path.
+  Hypothesis llen_pos : forall l, 1 <= llen l.
+
+  Notation step_stream := (step_stream L llen PS recog bump lineno).
+  Notation iter_fetch := (iter_fetch L llen PS recog bump lineno).
+  Notation tee_step := (tee_step L llen PS bump).
+  Notation stream_fetch := (stream_fetch L llen PS init_ps recog bump lineno T finish split p).
+  Notation verdict := (verdict L PS init_ps recog lineno T finish).
+
+  Definition writes_ok (e : env) : Prop := forall n, wr_ok e n = true.
+
+  Definition tee_open (w : tee) : Prop := match w with TOpen _ _ => True | TNone => False end.
+
+  Lemma tee_to_open : forall e c w, writes_ok e -> tee_open w -> tee_open (tee_to e c w).
+  Proof.
+    intros e c [n len|] He H; cbn [tee_to tee_open] in *; [|exact H].
+    destruct (c =? len); [exact I|]. rewrite He. exact I.
+  Qed.
+
+  Lemma tee_step_open : forall e x r w, writes_ok e -> tee_open w -> tee_open (tee_step e x r w).
+  Proof.
+    intros e x r w He H. unfold Stream.tee_step.
+    assert (H1 : tee_open (if pr (core x) then tee_to e (cbsum (recovery L llen PS bump (core x))) w else w)).
+    { destruct (pr (core x)); [apply tee_to_open; assumption|exact H]. }
+    destruct r; try (apply tee_to_open; assumption). exact H1.
+  Qed.
+
+  Lemma iter_fetch_open : forall e q x w, writes_ok e -> tee_open w -> tee_open (snd (iter_fetch e q x w)).
+  Proof.
+    intros e. induction q as [q IH|q IH|]; intros x w He H; cbn [Stream.iter_fetch].
+    - pose proof (tee_step_open e x (step_stream x) w He H) as H0.
+      destruct (step_stream x) as [x1|r x1|t]; cbn [snd]; try exact H0.
+      pose proof (IH x1 _ He H0) as H1.
+      destruct (iter_fetch e q x1 (tee_step e x (SNext x1) w)) as [r1 w1]. cbn [snd] in H1.
+      destruct r1 as [x2|r2 x2|t2]; cbn [snd]; try exact H1. apply IH; assumption.
+    - pose proof (IH x w He H) as H1. destruct (iter_fetch e q x w) as [r1 w1]. cbn [snd] in H1.
+      destruct r1 as [x2|r2 x2|t2]; cbn [snd]; try exact H1. apply IH; assumption.
+    - apply tee_step_open; assumption.
+  Qed.
+
+  (* what the download does, without any loop: create, then by the verdict on the whole body *)
+  Definition fetch_closed (e : env) (u : bytes) (f : fs) (b : bytes) : fs * fres T :=
+    let '(f1, tf) := create_cache_file p e f in
+    match verdict (fst (split b)) (snd (split b)) with
+    | FOk t => (match tf with
+                | Some n => commit_cache_file p e (write_tmp f1 n b) n b u
+                | None => f1
+                end, FOk t)
+    | r => (drop_temp f1 tf, r)
+    end.
+
+  Lemma stream_fetch_closed_form : forall e u f b script,
+    writes_ok e -> split_ok L llen split b -> delivered script = Z.of_nat (length b) ->
+    short_lines llen (fst (split b)) (snd (split b)) -> fails script = false ->
+    stream_fetch e u f b script = fetch_closed e u f b.
+  Proof.
+    intros e u f b script He Hs Hd Hshort Hfl.
+    pose proof (stream_fetch_verdict L llen PS init_ps recog bump lineno T finish split p llen_pos e u f b script Hs Hd Hshort Hfl) as Hv.
+    unfold Stream.stream_fetch, fetch_closed in *.
+    destruct (create_cache_file p e f) as [f1 tf].
+    unfold split_ok in Hs. destruct (split b) as [lines tail]. cbn [fst snd] in *.
+    rewrite <- Hs in Hd.
+    destruct (stream_total L llen PS init_ps recog bump lineno llen_pos lines tail script Hd) as [r0 [x0 [Hdrv [_ [_ Hok]]]]].
+    pose proof (iter_fetch_fst L llen PS recog bump lineno e (fuel_for L llen lines tail) (init_stream L llen PS init_ps lines tail script) (tee0 tf)) as Hf.
+    assert (Hn0 : tee_name tf (tee0 tf)) by (destruct tf; cbn; trivial).
+    pose proof (iter_fetch_at L llen PS recog bump lineno e (fuel_for L llen lines tail) (init_stream L llen PS init_ps lines tail script) (tee0 tf) tf Hn0) as Hat.
+    pose proof (iter_fetch_open e (fuel_for L llen lines tail) (init_stream L llen PS init_ps lines tail script) (tee0 tf) He) as Hop.
+    destruct (iter_fetch e (fuel_for L llen lines tail) (init_stream L llen PS init_ps lines tail script) (tee0 tf)) as [r w].
+    cbn [fst snd] in *.
+    unfold Stream.drive_stream in Hdrv. rewrite <- Hf in Hdrv.
+    destruct r as [x1|r1 x1|t1]; try discriminate. inversion Hdrv; subst r1 x1. clear Hdrv.
+    destruct r0 as [ps|c ln].
+    - destruct (finish ps) as [t|] eqn:Hfin.
+      + rewrite <- Hv. destruct w as [n len|].
+        * cbn [res_at tee_at] in Hat. destruct Hat as [Htf Hlen]. subst tf.
+          rewrite Hlen, (Hok ps eq_refl), Hs, take_all. reflexivity.
+        * destruct tf as [n|]; [exfalso; apply Hop; exact I|]. reflexivity.
+      + rewrite <- Hv. reflexivity.
+    - rewrite <- Hv. reflexivity.
+  Qed.
+End ClosedForm.
